@@ -4,6 +4,8 @@ open Pcore.Lat
 #print axioms C19_assert_iff
 #print axioms C19_nonempty_iff
 #print axioms C19_assert_sound
+#print axioms C19_assert_described_partial
+#print axioms C19_assert_described_fails_iterable_binary
 open Pcore.Desc
 #print axioms C19_describe_total
 #print axioms C19_describe_empty_iff
